@@ -826,6 +826,34 @@ func runC09(c *Ctx) {
 		return
 	}
 	lru, lruFn := roles.storeT, roles.lruFn
+	// LRU and the unexported constructor helpers only it calls
+	ctorScope := map[*ssa.Function]bool{lruFn: true}
+	for _, f := range buildCallScope(lruFn).fns {
+		o := origin(f)
+		if o == lruFn || o.Object() == nil || o.Object().Exported() || o.Signature.Recv() != nil {
+			if f.Parent() != nil {
+				ctorScope[o] = true // closures of the scope
+			}
+			continue
+		}
+		onlyFromScope := true
+		for _, g := range P.PkgFuncs("cache") {
+			allInstrs(g, func(in ssa.Instruction) {
+				if ci, ok := in.(ssa.CallInstruction); ok && origin(staticCallee(ci.Common())) == o {
+					gt := g
+					for gt.Parent() != nil {
+						gt = gt.Parent()
+					}
+					if !ctorScope[origin(gt)] {
+						onlyFromScope = false
+					}
+				}
+			})
+		}
+		if onlyFromScope {
+			ctorScope[o] = true
+		}
+	}
 	allocs, badAlloc := 0, []string{}
 	fieldTouch, badTouch := 0, []string{}
 	staticCalls := []string{}
@@ -843,14 +871,14 @@ func runC09(c *Ctx) {
 			case *ssa.Alloc:
 				if isNamedOrigin(x.Type(), lru) {
 					allocs++
-					if origin(top) != lruFn {
+					if !ctorScope[origin(top)] {
 						badAlloc = append(badAlloc, P.pos(instrPos(in)))
 					}
 				}
 			case *ssa.FieldAddr:
 				if isNamedOrigin(x.X.Type(), lru) {
 					fieldTouch++
-					if !isLruMethod && origin(top) != lruFn {
+					if !isLruMethod && !ctorScope[origin(top)] {
 						badTouch = append(badTouch, P.pos(instrPos(in)))
 					}
 				}
